@@ -8,7 +8,9 @@
          C09/Model.v        rep_stim                                            the closed form C09_record is about
 
    `lib_export D init anc cycles` is the composition (1) -> (2) -> (3): the model circuit exported by the model exporter, in the
-   normal form `rep_stim` is written in.  LibBuild/StimBridgeProofs.v compares it with `rep_stim`.
+   normal form `rep_stim` is written in.  It is compared with `rep_stim` in LibBuild/StimBridgeProofs.v (bounded domain, as
+   constructed and unrolled), StimBridgeCycles.v (chains of distance 2 and 3, every state, every cycle count) and
+   StimBridgeLayouts.v (the shipped layouts, every cycle count).
 
    WHAT CANNOT BE RECOVERED.  A Core leaf carries class, qubits, channel, duration strategy and acquisition tag.  The exporter
    additionally reads integer attributes of three annotation classes (C08/Tree.v `l_args`):
